@@ -97,14 +97,7 @@ func (s *seqRT) ruleOverlap() {
 		if len(o1) != 1 {
 			err = fmt.Errorf("first activation is not a single path")
 		} else {
-			var next AV
-			for _, e := range o1[0].St.Events[len(st.Events):] {
-				if e.Kind == "store" && e.Target == "c.step" {
-					if ob := o1[0].St.Obj(e.Args[0]); ob != nil {
-						next = ob.Fields[closureField(ob)]
-					}
-				}
-			}
+			next := storedResumption(o1[0].St, o1[0].St.Events[len(st.Events):])
 			o2 := in.Apply(o1[0].St, seq, []AV{c2, k2})
 			if next == nil || len(o2) != 1 {
 				err = fmt.Errorf("activation does not store a resumption")
